@@ -569,7 +569,7 @@ func main() {
 			doDepth(run, genDepth(r, binMax))
 		}
 	}
-	for i := 0; i < run.N(50, 800); i++ {
+	for i := 0; i < run.N(36, 600); i++ {
 		doKad(run, genKad(r))
 	}
 	run.Finish()
